@@ -836,7 +836,7 @@ impl Gen {
     /// properties name are reached in every batch rather than by luck.
     fn scenarist(&mut self, _sim: &Sim) -> Vec<Ev> {
         let mut v = Vec::new();
-        match self.rng.weighted(&[18, 18, 14, 22, 18, 10]) {
+        match self.rng.weighted(&[18, 18, 14, 22, 16, 10, 6]) {
             0 => {
                 // a view taken while the array was untracked; later the array is trained and updated
                 let n = 2 + self.rng.below(5);
@@ -949,6 +949,21 @@ impl Gen {
                 };
                 let seed = self.seed_for(n);
                 v.push(Ev::Pass { root, seed, via_clone: false });
+            }
+            6 => {
+                // a long vector (beyond any small block size) reduced and differentiated
+                let n = 129 + self.rng.below(180);
+                let (x, y, r) = (self.fresh_slot(), self.fresh_slot(), self.fresh_slot());
+                let vals = self.leaf_vals(n);
+                v.push(Ev::Leaf { dst: x, dims: vec![n], vals, mode: LeafMode::Tracked });
+                if self.rng.chance(1, 2) {
+                    v.push(Ev::Build { dst: y, op: Op::Mul, args: vec![x, x] });
+                } else {
+                    v.push(Ev::Build { dst: y, op: Op::Scale(if self.regime == Regime::Int { 2.0 } else { 0.5 }), args: vec![x] });
+                }
+                v.push(Ev::Build { dst: r, op: Op::Sum(1), args: vec![y] });
+                let seed = self.seed_for(1);
+                v.push(Ev::Pass { root: r, seed, via_clone: false });
             }
             _ => {
                 // a ladder of diamonds made of user operations with permuted operands
